@@ -185,12 +185,16 @@ func c14Run(c *Ctx) {
 	c.Count("files_parsed", 1)
 	if pi0 != nil {
 		c.Violate("panic:"+panicSite(pi0.Stack), "reading a well-formed file panicked: %s", pi0.Value)
-		c.Case(func() interface{} { return map[string]interface{}{"declaration": d.Describe(), "ini": clip(baseText, 3000)} })
+		c.Case(func() interface{} {
+			return map[string]interface{}{"declaration": d.Describe(), "ini": clip(baseText, 3000)}
+		})
 		return
 	}
 	if err0 != nil {
 		c.Violate("base-file-rejected", "well-formed file rejected: %v", err0)
-		c.Case(func() interface{} { return map[string]interface{}{"declaration": d.Describe(), "ini": clip(baseText, 3000)} })
+		c.Case(func() interface{} {
+			return map[string]interface{}{"declaration": d.Describe(), "ini": clip(baseText, 3000)}
+		})
 		return
 	}
 	// exact values of plain string options (in particular values longer than the 4096-byte read buffer)
@@ -207,7 +211,9 @@ func c14Run(c *Ctx) {
 	for o, v := range last {
 		if got := snap0["o"+itoa(o.ID)]; got != strconv.Quote(v) {
 			c.Violate("entry-value", "option %s: the file says %s (%d bytes), the field holds %s", o.Field, clip(strconv.Quote(v), 80), len(v), clip(got, 80))
-			c.Case(func() interface{} { return map[string]interface{}{"declaration": d.Describe(), "ini": clip(baseText, 6000)} })
+			c.Case(func() interface{} {
+				return map[string]interface{}{"declaration": d.Describe(), "ini": clip(baseText, 6000)}
+			})
 			return
 		}
 	}
